@@ -44,6 +44,10 @@ def hostile_projects(rng, files, quick):
         [("a.jst", J + "TYPE @a\n@b\nTYPE @b\n@a\n")],
         [("a.jst", J + "ENUM @e\n[1,2]\nTYPE @a\n{\"x\": @b}\nTYPE @b\n{\"y\": 1}\n")],
         [("a.jst", J + "GET /a\n  200 @nope\n")],
+        # the schema library's own runtime faults (recorded finding): an OR shortcut ending in '|' at the end of the input; a type
+        # whose body is a comment only
+        [("a.jst", J + "GET /{id}\n    Path\n      @a | ")], [("a.jst", J + "GET /x\n  200\n    @dog |")],
+        [("a.jst", J + "TYPE @catId\n  /*123 /*\n        {min: 0}\n      */\n")],
         # undefined types (one inside an OR shortcut) in types that refer to one another: the library's position for the
         # second lies past the end of the file
         [("a.jst", J + 'TYPE @s\n{\n  "a": @nopeA, // {optional: true}\n  "l" : @l,\n  "b": @s | @nopeB\n}\n\nTYPE @l\n{\n  "s": @s // {optional: true}\n}\n')] ,
@@ -145,6 +149,27 @@ def type_chain_projects(rng, quick):
     return out
 
 
+LIB_FAULT_ID = "C01/schema-library-runtime-fault-text"
+
+
+def library_alone_gives(pj, msg):
+    """True when some schema body of the project, handed to the schema library with no repository code in between, produces
+    the same Go runtime fault text"""
+    bodies = set()
+    for n, c in pj:
+        data = c.encode("latin1") if isinstance(c, str) else c
+        lx = C.run_lines("harness", "fn", ["lex " + C.hx(data)])[0]
+        for item in lx.split("|")[0].split(","):
+            if item and item.split(":")[0] in ("3", "4"):
+                _, b, e = item.split(":")
+                bodies.add(data[int(b):int(e) + 1])
+                bodies.add(data[int(b):])
+    if not bodies:
+        return False
+    outs = C.run_lines("harness", "fn", ["libalone " + C.hx(b) for b in sorted(bodies)])
+    return any(C.unhx(o).decode("latin1") in msg and "runtime error" in C.unhx(o).decode("latin1") for o in outs if o and o != "-")
+
+
 def classify(out):
     st, d = P.parse(out)
     msg = C.unhx(d.get("msg", "-")).decode("latin1") if "msg" in d else ""
@@ -229,6 +254,8 @@ def run(res, tier, seed, replay):
                         slow.append((i0 + j, dt))
     res.count(len(lines))
     dist = {}
+    lib_faults = []
+    known_ids0 = {f["id"] for f in C.load_known()["findings"] if f["property"] == "C01"}
     for pj, o in zip(projects, outs):
         st, msg, d = classify(o)
         dist[st] = dist.get(st, 0) + 1
@@ -239,11 +266,20 @@ def run(res, tier, seed, replay):
             bad = "outcome %s %s" % (st, msg[:200] or C.unhx(o.split(" ")[1] if " " in o else "-")[:200])
         elif st in ("err", "loaderr") and any(w in msg for w in RUNTIME_FAULT_WORDS):
             bad = "a Go runtime fault is reported as a diagnostic: %s" % msg[:200]
+            # is it the schema library's own fault?  every schema body of the project is handed to the library ALONE
+            if LIB_FAULT_ID in known_ids0 and library_alone_gives(pj, msg):
+                lib_faults.append((pj, msg))
+                bad = None
         elif st == "ok" and d.get("sha") and d.get("shaindent") is None:
             bad = "accepted but serialisation incomplete"
         if bad:
             res.violation("totality fails: %s" % bad,
                           {"project": [(C.hx(n), C.hx(c)) for n, c in pj], "outcome": o[:400]})
+    if lib_faults:
+        pj, msg = min(lib_faults, key=lambda x: sum(len(c) for _, c in x[0]))
+        c0 = pj[0][1]
+        res.known.append("id=%s projects=%d the schema library alone reports %r for a body of the project, and the text reaches the diagnostic; smallest: %r" % (
+            LIB_FAULT_ID, len(lib_faults), msg[:80], (c0 if isinstance(c0, str) else c0.decode("latin1"))[:160]))
     # "promptly": the doubling macro chain is exponential (recorded finding); anything else that is slow is new
     known_ids = {f["id"] for f in C.load_known()["findings"] if f["property"] == "C01"}
     if not replay:
